@@ -127,7 +127,7 @@ def all_indices(prop, tier, count_override=None):
 # ------------------------------------------------------------------ worker pool
 def _worker(prop, indices, verif_seed, tier, deadline, keep_digests_for):
     agg = {"n": 0, "digests": set(), "nt_digests": set(), "stats": {}, "samples": [],
-           "viol": {}, "harness": [], "index_digests": {}, "incomplete": 0}
+           "viol": {}, "harness": [], "index_digests": {}, "incomplete": 0, "aux": set()}
     for pos, index in enumerate(indices):
         if time.monotonic() > deadline:
             agg["incomplete"] = len(indices) - pos
@@ -149,6 +149,8 @@ def _worker(prop, indices, verif_seed, tier, deadline, keep_digests_for):
         agg["digests"].add(d)
         if res.get("nontrivial"):
             agg["nt_digests"].add(d)
+        if res.get("aux"):
+            agg["aux"].add(res["aux"][:16])
         if index in keep_digests_for:
             agg["index_digests"][str(index)] = res["digest"]
         for k, v in res.get("stats", {}).items():
@@ -167,6 +169,7 @@ def _worker(prop, indices, verif_seed, tier, deadline, keep_digests_for):
                     cur.update(index=index, key=key, program=prog, violation=v)
     agg["digests"] = sorted(agg["digests"])
     agg["nt_digests"] = sorted(agg["nt_digests"])
+    agg["aux"] = sorted(agg["aux"])
     return agg
 
 
@@ -199,7 +202,7 @@ def run_pool(prop, indices, verif_seed, tier, workers, wall_cap, keep_digests_fo
                 try:
                     agg = _worker(prop, mine, verif_seed, tier, deadline, keep)
                 except BaseException:
-                    agg = {"n": 0, "digests": [], "nt_digests": [], "stats": {}, "samples": [], "viol": {},
+                    agg = {"n": 0, "digests": [], "nt_digests": [], "stats": {}, "samples": [], "viol": {}, "aux": [],
                            "harness": [{"index": None, "error": "worker crashed: " + traceback.format_exc()}],
                            "index_digests": {}, "incomplete": len(mine)}
                 data = json.dumps(agg).encode()
@@ -239,7 +242,7 @@ def run_pool(prop, indices, verif_seed, tier, workers, wall_cap, keep_digests_fo
         try:
             results.append(json.loads(raw))
         except Exception:
-            results.append({"n": 0, "digests": [], "nt_digests": [], "stats": {}, "samples": [], "viol": {},
+            results.append({"n": 0, "digests": [], "nt_digests": [], "stats": {}, "samples": [], "viol": {}, "aux": [],
                             "harness": [{"index": None, "error": "worker produced no result (%d bytes)" % len(raw)}],
                             "index_digests": {}, "incomplete": n})
     return merge(results)
@@ -247,11 +250,12 @@ def run_pool(prop, indices, verif_seed, tier, workers, wall_cap, keep_digests_fo
 
 def merge(results):
     out = {"n": 0, "digests": set(), "nt_digests": set(), "stats": {}, "samples": [], "viol": {},
-           "harness": [], "index_digests": {}, "incomplete": 0}
+           "harness": [], "index_digests": {}, "incomplete": 0, "aux": set()}
     for a in results:
         out["n"] += a["n"]
         out["digests"].update(a["digests"])
         out["nt_digests"].update(a["nt_digests"])
+        out["aux"].update(a.get("aux", []))
         for k, v in a["stats"].items():
             out["stats"][k] = out["stats"].get(k, 0) + v
         out["samples"] += a["samples"]
@@ -532,6 +536,7 @@ def check_main(prop, argv=None):
     known, _fixed = load_known()
     lines = []
     known_hit = []
+    extra_sigs = []
     n_viol = 0
     sigs = sorted(agg["viol"], key=lambda s: agg["viol"][s]["key"])
     for n, s in enumerate(sigs):
@@ -545,6 +550,10 @@ def check_main(prop, argv=None):
                 prop.ID, known[(prop.ID, s)], s, info["count"], info["index"]))
             continue
         minimised, res = (None, None)
+        if n_viol >= 12:
+            # enough replay files for one batch: further signatures are listed, not minimised
+            extra_sigs.append(s)
+            continue
         if n < 12:
             minimised, res = minimise(prop, prog, s)
         if minimised is None:
@@ -571,6 +580,9 @@ def check_main(prop, argv=None):
             s, info["count"], info["index"], orig_ops, len(minimised.get("ops", [])) if isinstance(minimised.get("ops"), list) else None))
         lines.append("  expected: %s" % v.get("expected"))
         lines.append("  actual:   %s" % v.get("actual"))
+    if extra_sigs:
+        lines.append("  (+%d further violation signature(s) in this batch, not minimised: %s%s)" % (
+            len(extra_sigs), ", ".join(extra_sigs[:6]), " ..." if len(extra_sigs) > 6 else ""))
     if n_viol and exit_code == 0:
         exit_code = 1
 
@@ -586,6 +598,7 @@ def check_main(prop, argv=None):
             "samples": agg["samples"][:3] or [{"note": "no non-trivial run in this batch"}],
             "exhaustive": False,
             "distinct_event_digests": len(agg["digests"]),
+            "distinct_" + getattr(prop, "AUX_NAME", "aux"): len(agg["aux"]) if getattr(prop, "AUX_NAME", None) else None,
             "seeded_runs": nseeded,
             "enumerated_runs": len(indices) - nseeded,
             "enumerated_subspace": getattr(prop, "ENUMERATED_NOTE", None),
